@@ -298,7 +298,8 @@ def lcapyTerm (env : Env K) : Raw K → Branch × Option K
     | [.exp al, .trig isCos w ph, .step a b] =>
         if a = 1 then (.sinCos, some (c * sinCosFormula env al isCos w ph (-b))) else sympyBranch env c fs
     | [.fn f a b] =>
-        if b = 0 then
+        -- `function`: the table needs a plain shift-free argument; a negative scale is refused when the source says so (GENERATED flag)
+        if b = 0 ∧ ¬ (Gen.fnRejectsNegScale = true ∧ ¬ (0 : K) ≤ a) then
           (.function, some (c * (match f with
             | .rect => Gen.rectEntry env.E s a
             | .tri => Gen.triEntry env.E s a
